@@ -274,17 +274,25 @@ import os  # noqa: E402
 QUICK_SCALE = int(os.environ.get("IPCV_QUICK_SCALE", "4"))
 
 
-def _scaled(fn):
+# The thorough tier was first sized so that every property finished within minutes; the measured
+# wall-clock times on 16 cores (C01 17 s ... C11 1247 s) are evened out to roughly 6-10 minutes per
+# property by these factors on the generated case counts (enumerated domains are unaffected).
+THOROUGH_SCALE = {"C01": 25, "C02": 2, "C03": 5, "C04": 7, "C05": 8, "C06": 1, "C07": 6, "C08": 2, "C09": 6, "C10": 4, "C11": 1,
+                  "C12": 8, "C13": 12, "C14": 12, "C15": 30, "C16": 1, "C17": 20, "C18": 2, "C19": 1, "C20": 5}
+
+
+def _scaled(pid, fn):
     def jobs(tier):
         js = fn(tier)
-        if tier == "quick" and QUICK_SCALE != 1:
+        k = QUICK_SCALE if tier == "quick" else THOROUGH_SCALE.get(pid, 1)
+        if k != 1:
             for j in js:
                 p = j.get("params", {})
                 if "fuzz" not in j and p.get("cases", "0").isdigit() and int(p["cases"]) > 0:
-                    j["params"] = dict(p, cases=str(int(p["cases"]) * QUICK_SCALE))
+                    j["params"] = dict(p, cases=str(int(p["cases"]) * k))
         return js
     return jobs
 
 
-for _v in PROPS.values():
-    _v["jobs"] = _scaled(_v["jobs"])
+for _k, _v in PROPS.items():
+    _v["jobs"] = _scaled(_k, _v["jobs"])
